@@ -4,23 +4,15 @@ object, or whatever the import it re-exports points to. -/
 namespace EsbuildModel.ExportMatch
 open EsbuildModel.Spec EsbuildModel.Spec.EsModules
 
-def locOf (t : Table) (m r : Nat) : Nat :=
-  match t[m]? with
-  | some f =>
-    match f.exports.find? (·.ref = r) with
-    | some e => e.loc
-    | none => 0
-  | none => 0
-
 def exportsRefOf (t : Table) (m : Nat) : Nat :=
   match t[m]? with
   | some f => f.exportsRef
   | none => 0
 
-/-- the `matchImportResult` of kind Normal that names binding `b` -/
+/-- the `matchImportResult` of kind Normal that names binding `b`, without its `nameLoc` -/
 def normalOf (t : Table) (b : ResolvedBinding) : MResult :=
   match b.bindingName with
-  | .name r => { kind := .normal, src := b.module, ref := r, loc := locOf t b.module r }
+  | .name r => { kind := .normal, src := b.module, ref := r, loc := 0 }
   | .namespace => { kind := .normal, src := b.module, ref := exportsRefOf t b.module, loc := 0 }
 
 /-- what the import `ni` points to, in the request graph -/
@@ -29,39 +21,24 @@ def Pointed (t : Table) (ni : NamedImport) (b : ResolvedBinding) : Prop :=
   | some tg => if ni.isStar then b = ⟨tg, .namespace⟩ else Reaches (toSpec t) (tg, ni.alias) b
   | none => False
 
-theorem locOf_eq {t : Table} (hloc : LocInj t) {m : Nat} {f : File} (hf : t[m]? = some f) {e : NamedExport}
-    (he : e ∈ f.exports) (hni : findImport f e.ref = none) : locOf t m e.ref = e.loc := by
-  unfold locOf
-  rw [hf]
-  simp only
-  cases hfind : f.exports.find? (·.ref = e.ref) with
-  | none => exact absurd (List.find?_eq_none.1 hfind e he) (by simp)
-  | some e' =>
-    have h1 := List.mem_of_find?_eq_some hfind
-    have h2 : e'.ref = e.ref := by simpa using List.find?_some hfind
-    exact hloc f (List.mem_of_getElem? hf) e' h1 e he h2 (h2 ▸ hni)
-
 /-- a holder whose symbol is a local binding provides exactly that binding -/
-theorem holder_local {t : Table} (hwf : WF t) (hloc : LocInj t) {a : Name} {d : ImportData} {fo : File}
-    {e : NamedExport} (hfo : t[d.src]? = some fo) (he : entry fo a = some e) (her : e.ref = d.ref) (hel : e.loc = d.loc)
+theorem holder_local {t : Table} (hwf : WF t) {a : Name} {d : ImportData} {fo : File}
+    {e : NamedExport} (hfo : t[d.src]? = some fo) (he : entry fo a = some e) (her : e.ref = d.ref)
     (hni : findImport fo d.ref = none) :
     (∀ b, Reaches (toSpec t) (d.src, a) b ↔ b = ⟨d.src, .name d.ref⟩) ∧
-      normalOf t ⟨d.src, .name d.ref⟩ = { kind := .normal, src := d.src, ref := d.ref, loc := d.loc } := by
+      noLoc { kind := .normal, src := d.src, ref := d.ref, loc := d.loc } = normalOf t ⟨d.src, .name d.ref⟩ := by
   have hnode : node (toSpec t) d.src a = .loc d.ref := by
     rw [node_toSpec hwf.aliases]
     simp [nodeOf, hfo, he, her, hni]
-  refine ⟨?_, ?_⟩
-  · intro b
-    constructor
-    · intro hr
-      rcases hr.cases with ht | ⟨y, hy, _⟩
-      · simp [term, hnode] at ht; exact ht.symm
-      · simp [succ, hnode] at hy
-    · rintro rfl
-      exact Reaches.of_term (by simp [term, hnode])
-  · have := locOf_eq hloc hfo (entry_some he).1 (her ▸ hni)
-    simp only [normalOf]
-    rw [← her, this, hel]
+  refine ⟨?_, rfl⟩
+  intro b
+  constructor
+  · intro hr
+    rcases hr.cases with ht | ⟨y, hy, _⟩
+    · simp [term, hnode] at ht; exact ht.symm
+    · simp [succ, hnode] at hy
+  · rintro rfl
+    exact Reaches.of_term (by simp [term, hnode])
 
 /-- a holder whose symbol is an import provides what the import points to -/
 theorem holder_import {t : Table} (hwf : WF t) (hesm : EsmOnly t) {a : Name} {d : ImportData} {fo : File}
@@ -119,5 +96,8 @@ theorem pointed_unique {t : Table} (hwf : WF t) (hesm : EsmOnly t) (hlink : Reex
     · have hs' : ni.isStar = false := by simpa using hs
       obtain ⟨b, hb, hu⟩ := link_unique hwf hlink (hind hs' tg htg)
       exact ⟨b, (hiff b).1 hb, fun b' hb' => hu b' ((hiff b').2 hb')⟩
+
+theorem noLoc_normalOf (t : Table) (b : ResolvedBinding) : noLoc (normalOf t b) = normalOf t b := by
+  unfold normalOf noLoc; split <;> rfl
 
 end EsbuildModel.ExportMatch
